@@ -780,6 +780,53 @@ pub fn run_udp(a: &Args) {
         out.case("udp connected", &format!("{}", g == ms));
         if na.shutdown() | nb.shutdown() { out.violation("[C17,C12] event processing panicked"); }
     }
+    // endpoints of different peers of ONE listener are different values (Eq and Hash), and a
+    // connected socket (default or broadcast-enabled) reports only its peer's datagrams
+    {
+        use std::collections::HashSet;
+        mark_scenario(&out, "net_udp: two peers of one listener; a stranger sends to the local port of a connected socket (default and with_broadcast)");
+        let na = Net::new();
+        let (lid, addr) = na.ctl.listen(t, "127.0.0.1:0").unwrap();
+        let (p1, p2) = (UdpSocket::bind("127.0.0.1:0").unwrap(), UdpSocket::bind("127.0.0.1:0").unwrap());
+        p1.send_to(b"one", addr).unwrap(); p2.send_to(b"two", addr).unwrap();
+        na.wait(2000, |ev| ev.len() >= 2);
+        let eps: Vec<Endpoint> = na.snapshot().into_iter().filter_map(|e| if let Ev::Message(ep, _) = e { Some(ep) } else { None }).collect();
+        let set: HashSet<Endpoint> = eps.iter().cloned().collect();
+        if eps.len() != 2 || eps[0] == eps[1] || set.len() != 2 || eps.iter().any(|e| e.resource_id() != lid) {
+            out.violation(&format!("[C14,C12] two different peers ({}, {}) sent to one Udp listener: reported endpoints {:?}; equal as values: {}, distinct hash keys: {} (an endpoint identifies ONE peer)", p1.local_addr().unwrap(), p2.local_addr().unwrap(), eps.iter().map(|e| e.to_string()).collect::<Vec<_>>(), eps.len() == 2 && eps[0] == eps[1], set.len()));
+        }
+        // answers through the two endpoints reach the two peers respectively
+        for (i, ep) in eps.iter().enumerate() { na.ctl.send(*ep, format!("answer-{}", i).as_bytes()); }
+        for (i, p) in [&p1, &p2].iter().enumerate() {
+            p.set_read_timeout(Some(Duration::from_millis(1500))).unwrap();
+            let mut b = [0u8; 32];
+            let got = p.recv_from(&mut b).ok().map(|(n, _)| String::from_utf8_lossy(&b[..n]).to_string());
+            let want = eps.iter().position(|e| e.addr() == p.local_addr().unwrap()).map(|k| format!("answer-{}", k));
+            if got != want { out.violation(&format!("[C14,C12] peer {} of a Udp listener received {:?}, the answer sent through ITS endpoint was {:?}", i + 1, got, want)); }
+        }
+        out.count("udp_two_peers_one_listener");
+        if na.shutdown() { out.violation("[C17,C12] event processing panicked"); }
+        for broadcast in [false, true] {
+            use message_io::network::TransportConnect;
+            use message_io::adapters::udp::UdpConnectConfig;
+            let node = Net::new();
+            let peer = UdpSocket::bind("127.0.0.1:0").unwrap();
+            let cfg = if broadcast { UdpConnectConfig::default().with_broadcast() } else { UdpConnectConfig::default() };
+            let (ep, local) = node.ctl.connect_with(TransportConnect::Udp(cfg), peer.local_addr().unwrap()).unwrap();
+            node.wait(2000, |ev| ev.iter().any(|e| matches!(e, Ev::Connected(e2, true) if *e2 == ep)));
+            let stranger = UdpSocket::bind("127.0.0.1:0").unwrap();
+            stranger.send_to(b"from a stranger", local).unwrap();
+            std::thread::sleep(Duration::from_millis(60));
+            peer.send_to(b"from the peer", local).unwrap();
+            node.wait(1500, |ev| ev.iter().any(|e| matches!(e, Ev::Message(_, d) if d == b"from the peer")));
+            let msgs: Vec<(Endpoint, Vec<u8>)> = node.snapshot().into_iter().filter_map(|e| if let Ev::Message(e2, d) = e { Some((e2, d)) } else { None }).collect();
+            if msgs.iter().any(|(_, d)| d == b"from a stranger") || !msgs.iter().any(|(e2, d)| *e2 == ep && d == b"from the peer") {
+                out.violation(&format!("[C14,C12] Udp connect{} to {}: a datagram sent by the stranger {} to the connection's local port was reported as {:?} (every event carries the endpoint of the connection it occurred on; the peer's own datagram delivered: {})", if broadcast { "_with(with_broadcast)" } else { "" }, peer.local_addr().unwrap(), stranger.local_addr().unwrap(), msgs.iter().find(|(_, d)| d == b"from a stranger").map(|(e2, _)| e2.to_string()), msgs.iter().any(|(e2, d)| *e2 == ep && d == b"from the peer")));
+            }
+            out.count("udp_stranger_to_connected_socket");
+            if node.shutdown() { out.violation("[C17,C12] event processing panicked"); }
+        }
+    }
     // the peer of a connected socket speaks first: its datagram is already queued when the node first
     // looks at the new socket (connect() called from inside a callback, a late poll thread)
     for late_ms in [0u64, 30] {
